@@ -349,7 +349,16 @@ func kUnpack(c J) interface{} {
 	}
 	for _, m := range arr(c, "merges") {
 		mj := m.(map[string]interface{})
-		if err := cfg.Merge(buildValue(mj["b"]), buildOpts(mj["opts"])...); err != nil {
+		dst := cfg
+		if at := str(mj, "at"); at != "" {
+			// merged through a handle on a sub-configuration: what arrives belongs to the place the handle stands for
+			ch, err := cfg.Child(at, -1, ucfg.PathSep("."))
+			if err != nil {
+				return J{"harness": "merge at " + at + ": " + err.Error()}
+			}
+			dst = ch
+		}
+		if err := dst.Merge(buildValue(mj["b"]), buildOpts(mj["opts"])...); err != nil {
 			return J{"create": errKind(err)}
 		}
 	}
